@@ -40,7 +40,7 @@ theorem rebuiltOrSame_spec (chk : Ref → Bool) (h0 h1 : Heap) (st : StepImp chk
     cases o' with
     | type t' =>
       simp only [SameHead] at hd
-      exact ⟨t', readType_of_read hr', hd.1, hd.2, fun x => by simpa [refsOf] using hrefs (by simpa [refsOf] using x),
+      exact ⟨t', readType_of_read hr', hd.1, hd.2.1, fun x => by simpa [refsOf] using hrefs (by simpa [refsOf] using x),
         fun c hc => by rw [heq]; simpa [kids] using hk c (by simpa [kids] using hc), StepImp.refl chk h1⟩
     | field _ => simp [SameHead] at hd
     | arg _ => simp [SameHead] at hd
